@@ -64,13 +64,16 @@ func (f GitBranchFinder) Find(allEntries []Entry) (entries []Entry, err error) {
 	}
 
 	for _, change := range changes {
-		p := parser.NewParser(!f.filter.IsRelaxed(change.Path.Before.Name), f.schema, f.names)
+		// Each side is parsed the way its own path asks for: a file added to (or renamed into) a relaxed path has
+		// no before path, or a strict one.
+		pBefore := parser.NewParser(!f.filter.IsRelaxed(change.Path.Before.Name), f.schema, f.names)
+		p := parser.NewParser(!f.filter.IsRelaxed(change.Path.After.Name), f.schema, f.names)
 		var entriesBefore, entriesAfter []Entry
 		entriesBefore, err = readRules(
 			change.Path.Before.EffectivePath(),
 			change.Path.Before.Name,
 			bytes.NewReader(change.Body.Before),
-			p,
+			pBefore,
 			nil,
 		)
 		if err != nil {
